@@ -78,6 +78,15 @@ func closureCheck(t reflect.Type, tm map[string]reflect.Type, nm map[string]stri
 		if !ok {
 			return fmt.Sprintf("slice type %v is missing from the name map", l)
 		}
+		if cn, has := customName(l); has {
+			if wn != cn {
+				return fmt.Sprintf("slice type %v declares the wire name %q but the name map says %q", l, cn, wn)
+			}
+			if got, ok := tm[cn]; !ok || got != l {
+				return fmt.Sprintf("the type map does not map the declared wire name of slice type %v back to it", l)
+			}
+			continue
+		}
 		got, ok := tm[wn]
 		if !ok {
 			return fmt.Sprintf("the type map has no entry for the wire name of slice type %v", l)
